@@ -63,6 +63,7 @@ type simInline struct {
 }
 
 type simHistOpts struct {
+	RoundDuringSubmit bool // sometimes a whole sequencing round runs inside a storage operation of a submission (issuer upload)
 	HTTP         bool // some submissions go through Log.Handler() with real certificate chains, SCTs are verified
 	Existing     bool // the system already holds a log (e.g. a clone of the large pre-built base)
 	Dedup        bool // track the deduplication oracle (expected source of every answer, identical acknowledgements)
@@ -82,7 +83,7 @@ type simHistStats struct {
 	Rounds, Commits, Restarts, Crashes, FaultsFired, ClockAnoms, TileCross, MultiTile, EmptyRounds int
 	FatalRounds, FailedPools, LoadFailures, Acks                                                 int
 	InlineRun, InlineDupInSeq, InlineDupAcked, InlineCacheHits, KillsAfterAck, CacheRollbacks, EarlyRelease int
-	LegacyTables, ToolRuns                                                                                 int
+	LegacyTables, ToolRuns, RoundsInsideSubmit                                                             int
 	Sizes                                                                                        []int64
 	Desc                                                                                         []string
 }
@@ -151,6 +152,7 @@ type simHist struct {
 	dedupErr error
 	toolRuns int
 
+	shapeOverride map[int]int
 	httpNext int
 	httpSubs []*simHTTPSub          // in flight for the coming round
 	httpSent []int                  // ids submitted so far (for resubmissions)
@@ -308,6 +310,9 @@ func (h *simHist) installYield(inl []simInline) {
 }
 
 func (h *simHist) shapeOf(id int) int {
+	if sh, ok := h.shapeOverride[id]; ok {
+		return sh
+	}
 	if h.opts.Shapes != nil {
 		return h.opts.Shapes[(id*7)%len(h.opts.Shapes)]
 	}
@@ -419,8 +424,46 @@ func (h *simHist) run(t *rapid.T) error {
 				Ordinal: rapid.IntRange(0, 2).Draw(t, "sfOrd"), Mode: simMode(rapid.IntRange(1, 4).Draw(t, "sfMode"))}}
 		}
 		h.in.p.begin("submit", subFaults)
+		var innerRes *simRoundResult
+		if h.opts.RoundDuringSubmit && !h.opts.Dedup && rapid.IntRange(0, 2).Draw(t, "roundDuringSubmit") == 0 {
+			// entries with fresh issuers make the submission perform storage operations (yield points)
+			for k := rapid.IntRange(1, 3).Draw(t, "freshIssuerEntries"); k > 0; k-- {
+				if h.shapeOverride == nil {
+					h.shapeOverride = map[int]int{}
+				}
+				h.shapeOverride[h.nextID] = h.shapeOf(h.nextID) | 16
+				entries = append(entries, simMakeEntry(h.nextID, h.shapeOf(h.nextID)))
+				h.nextID++
+			}
+			at := rapid.IntRange(1, 6).Draw(t, "roundAtSubmitOp")
+			count := 0
+			in0 := h.in
+			s.w.yield = func(p *simProc, op *simOp) {
+				if p != in0.p || innerRes != nil {
+					return
+				}
+				count++
+				if count == at {
+					s.w.clock += 7
+					innerRes = s.roundCtx(simInlineCtx(context.Background()), in0, nil)
+					h.st.RoundsInsideSubmit++
+					h.st.descf("round %d: a whole sequencing round ran inside %s %s of a submission: pool=%d acks=%d", r, op.Kind, op.Class, innerRes.PoolSize, len(innerRes.Acks))
+				}
+			}
+		}
 		for _, e := range entries {
 			h.submit(context.Background(), e)
+		}
+		s.w.yield = nil
+		if innerRes != nil {
+			h.st.Rounds++
+			h.st.Acks += len(innerRes.Acks)
+			s.poll(h.in, nil)
+			if h.afterRound != nil {
+				if err := h.afterRound(innerRes); err != nil {
+					return err
+				}
+			}
 		}
 		if h.opts.HTTP && !h.in.p.dead {
 			thisRound := map[int]bool{}
